@@ -254,6 +254,19 @@ def _base(key, qual):
     return _PREP[k]
 
 
+def surviving_new_locals(key, qual, params, body):
+    """Locals of the current function that the baseline function does not have and that the normal form could not remove (names recovered, pure locals
+    absorbed, inductions closed): the mark of a restructuring the shape-bound recognisers were not written for."""
+    base = _base(key, qual)
+    if base is None:
+        return set()
+    bparams, bbody = base
+    known = local_names(bbody, set(bparams)) | set(bparams)
+    cur = local_names(body, set(params))
+    # (temporaries of an expanded helper carry an `@`; locals the baseline has and the current body lost are listed with a leading `-`)
+    return {v for v in cur if v not in known} | {'-' + v for v in local_names(bbody, set(bparams)) if v not in cur}
+
+
 def recover(key, qual, params, body):
     """body of the current function with its locals renamed to the baseline's names where the correspondence is clear"""
     base = _base(key, qual)
